@@ -8,6 +8,8 @@ import glob, json, os, shutil, sys
 OUT = "/verif/seeded"
 # what happened before the result recorded below (the earlier screening results were overwritten by the later ones)
 HISTORY = {
+    "C02-r5m1": "missed by C02 on its first screening (Natives.tla's pool has few haystack / needle pairs around character boundaries; C13 decides those on the checked build); detected after C02 got the cases of Strings.tla on the optimised build",
+    "C02-r5m2": "missed by C02 on its first screening (no range of Natives.tla's pool had a negative end resolving before its start); detected after C02 got the cases of Strings.tla on the optimised build",
     "C03-r5m1": "missed on its first screening (no escape alphabet contained a multi-byte character); detected after the alphabet EscapesU was added",
     "C17-r5m2": "missed on its first screening (no scanner alphabet contained a carriage return); detected after the alphabet Lines was added",
     "C06-r5m1": "missed on its first screening (the second closure over a captured variable was always created while that variable was the head of the open list); detected after the capture-order product got its late re-capture",
